@@ -103,7 +103,7 @@ EXPORT int sprintf_s(char *restrict dest, rsize_t dmax,
     int ret;
     va_start(va, fmt);
 #if defined SAFECLIB_HAVE_C99
-    ret = _vsnprintf_s_chk(dest, dmax, destbos, fmt, va);
+    ret = _vsprintf_s_chk(dest, dmax, destbos, fmt, va);
 #else
     ret = vsnprintf_s(dest, dmax, fmt, va);
 #endif
